@@ -742,31 +742,6 @@ def merge_measure_contents(notes, other, measure_start, segment_end=None):
 def do_directions(part, start, end, counter):
     result = []
 
-    # ending directions
-    directions = part.iter_all(
-        score.DynamicDirection,
-        start.next,
-        end.next,
-        include_subclasses=True,
-        mode="ending",
-    )
-
-    for direction in directions:
-        text = direction.raw_text or direction.text
-        e0 = etree.Element("direction")
-        e1 = etree.SubElement(e0, "direction-type")
-
-        if getattr(direction, "wedge", False):
-            number = range_number_from_counter(direction, "wedge", counter)
-            e2 = etree.SubElement(e1, "wedge", number="{}".format(number), type="stop")
-
-        else:
-            number = range_number_from_counter(direction, "wedge", counter)
-            etree.SubElement(e1, "dashes", number="{}".format(number), type="stop")
-
-        elem = (direction.end.t, None, e0)
-        result.append(elem)
-
     tempos = part.iter_all(score.Tempo, start, end)
     directions = part.iter_all(score.Direction, start, end, include_subclasses=True)
 
@@ -869,6 +844,36 @@ def do_directions(part, start, end, counter):
 
             elem = (direction.start.t, None, e0)
             result.append(elem)
+
+    # ending directions (numbered after the starting ones, so that a range that
+    # starts while another one is still open gets its own number)
+    ending = []
+    directions = part.iter_all(
+        score.DynamicDirection,
+        start.next,
+        end.next,
+        include_subclasses=True,
+        mode="ending",
+    )
+
+    for direction in directions:
+        text = direction.raw_text or direction.text
+        e0 = etree.Element("direction")
+        e1 = etree.SubElement(e0, "direction-type")
+
+        if getattr(direction, "wedge", False):
+            number = range_number_from_counter(direction, "wedge", counter)
+            e2 = etree.SubElement(e1, "wedge", number="{}".format(number), type="stop")
+
+        else:
+            number = range_number_from_counter(direction, "wedge", counter)
+            etree.SubElement(e1, "dashes", number="{}".format(number), type="stop")
+
+        elem = (direction.end.t, None, e0)
+        ending.append(elem)
+
+    # stops are written before starts at the same position
+    result = ending + result
 
     return result
 
